@@ -21,8 +21,9 @@ from checks.worldb import (WorldB, APPS, draw_sched_b, draw_knobs_b, LOCAL_HOST,
 
 CODES = [316, 318, 274, 275, 272, 258]
 OUTCOMES = ["typed", "generic", "generic", "none", "wrong_req", "wrong_str", "raise_value", "raise_key",
-            "raise_zero", "slow"]
-FAIL = ("none", "wrong_req", "wrong_str", "raise_value", "raise_key", "raise_zero")
+            "raise_zero", "slow", "slow_none", "slow_raise_value", "slow_wrong_str", "slow_typed"]
+FAIL = ("none", "wrong_req", "wrong_str", "raise_value", "raise_key", "raise_zero",
+        "slow_none", "slow_raise_value", "slow_wrong_str")
 TAG = 99999
 
 
@@ -147,8 +148,10 @@ class C13(Check):
                     spec = plan.get(hb, {"outcome": "generic"})
                     out = spec["outcome"]
                     try:
-                        if out == "slow":
+                        if out.startswith("slow"):
+                            # the handler overlaps the dispatch of later requests, then succeeds or fails
                             sim.sleep(spec["slow"])
+                            out = out[5:] or "generic"
                         if out == "none":
                             return None
                         if out == "wrong_req":
